@@ -60,7 +60,7 @@ def main(argv):
     shutil.copy(os.path.join(wt, demo), os.path.join(dst, demo))
     if os.path.exists(os.path.join(wt, "NOTES.md")):
         shutil.copy(os.path.join(wt, "NOTES.md"), os.path.join(dst, "NOTES.md"))
-    head = subprocess.run(["git", "-C", "/repo", "rev-parse", "--short", "HEAD"], capture_output=True, text=True).stdout.strip()
+    head = subprocess.run(["git", "-C", wt, "rev-parse", "--short", "HEAD"], capture_output=True, text=True).stdout.strip()
     meta = {
         "breaks_property": pid,
         "written_by": "independent sub-agent given only the property text and its own scratch worktree",
